@@ -67,7 +67,11 @@ ElasticPathIndependence(r) ==
   \A a, b \in 1..Len(r.runs) : r.runs[a].last = r.runs[b].last =>
      \A n \in 1..Len(r.runs[a].u) : Abs(r.runs[a].u[n] - r.runs[b].u[n]) <= r.utol
 
-Clauses(r) == CASE r.kind = "or" -> {"RunningMax", "MaxMonotone", "PrimaryPathEqualsBase", "SoftenedBelowMax", "ReloadRetracesUnload"}
+\* vector-valued ramp: in every pass over the step (same Step object re-used, job re-evaluated) substep i prescribes row i of the
+\* table as it was handed over (bit patterns)
+RampRowApplied(r) == /\ Len(r.applied) % r.nsub = 0 /\ Len(r.applied) >= r.nsub
+                     /\ \A n \in 1..Len(r.applied) : r.applied[n] = r.rows[((n - 1) % r.nsub) + 1]
+Clauses(r) == CASE r.kind = "ramptable" -> {"RampRowApplied"} [] r.kind = "or" -> {"RunningMax", "MaxMonotone", "PrimaryPathEqualsBase", "SoftenedBelowMax", "ReloadRetracesUnload"}
                 [] r.kind = "pl" -> {"YieldHolds", "PlasticStrainMonotone"}
                 [] r.kind = "el" -> {"ElasticPathIndependence"}
 Holds(c, r) == CASE c = "RunningMax" -> RunningMax(r)
@@ -78,6 +82,7 @@ Holds(c, r) == CASE c = "RunningMax" -> RunningMax(r)
                  [] c = "YieldHolds" -> YieldHolds(r)
                  [] c = "PlasticStrainMonotone" -> PlasticStrainMonotone(r)
                  [] c = "ElasticPathIndependence" -> ElasticPathIndependence(r)
+                 [] c = "RampRowApplied" -> RampRowApplied(r)
 Applicable(r) == Clauses(r)
 Failing(r) == {c \in Clauses(r) : ~Holds(c, r)}
 =============================================================================
